@@ -111,6 +111,9 @@ def run_into(rep, prop, tier, seed):
         c14_extra.run(rep, tier, seed)
     if prop == "C15":
         oneshot_entry_points(rep, tier, wd)
+        # mixin method vs codec objects (bare, in a list, in a mapping; with / without default_dialect) on configured families
+        from harness.checks import conf_props
+        conf_props.run_into(rep, "C15", tier, seed)
     rep.assumptions += ["family: P (plain nested), Inner (dialect support), C (nested, list of nested, plain nested, aliased Optional), S < C; dialects D1 (strategy), D2 (omit_none+by_alias), D3 (strategy+omit_none)",
                         "the twin of a family under D gives every class reached through dialect-enabled classes the default dialect Layer(D, own) (DESIGN.md 6 C13)"]
 
